@@ -252,7 +252,7 @@ func (g *gen) existing() ([]byte, []byte, bool) {
 
 func (g *gen) genStep(bigBatch bool) step {
 	r := g.r
-	switch r.Pick([]int{6, 5, 5, 1}) {
+	switch r.Pick([]int{12, 10, 10, 1}) {
 	case 0:
 		return step{Op: "add", K: hlib.Ints(g.key()), V: hlib.Ints(g.val())}
 	case 1:
@@ -380,17 +380,40 @@ func replayCase(a *hlib.Args, n int, c *c15case) error {
 
 // genCase generates and runs one history; every step is generated after the
 // previous one was observed so that deletions can aim at what is stored.
+// shared is the store that most generated cases of one run use one after the
+// other (opening and closing a RocksDB directory costs far more than the steps).
+// Such a case lives in its own key space: every key of its alphabet carries a
+// two-byte prefix that no other case uses.  Every sixth case and every case that
+// uses the empty key get a fresh store and literal keys.  A replayed case always
+// runs alone in a fresh store, with exactly the keys it was recorded with.
+var shared *runner
+
 func genCase(a *hlib.Args, n int, r *hlib.Rng) (c15case, error) {
 	g, class, nsteps := newGen(r, a.Tier)
 	c := c15case{Class: class, Keys: [][]int{}, Steps: []step{}}
+	own := class == "emptykey" || n%6 == 0
+	var rn *runner
+	var err error
+	if own {
+		if rn, err = newRunner(a.Scratch, n); err != nil {
+			return c, err
+		}
+		defer rn.finish()
+	} else {
+		if shared == nil {
+			if shared, err = newRunner(a.Scratch, 1000000+n); err != nil {
+				return c, err
+			}
+		}
+		rn = shared
+		for i, k := range g.keys {
+			g.keys[i] = append([]byte{byte(n >> 8), byte(n)}, k...)
+		}
+		c.Class += ":shared"
+	}
 	for _, k := range g.keys {
 		c.Keys = append(c.Keys, hlib.Ints(k))
 	}
-	rn, err := newRunner(a.Scratch, n)
-	if err != nil {
-		return c, err
-	}
-	defer rn.finish()
 	for i := 0; i < nsteps; i++ {
 		st := g.genStep(class == "bigbatch")
 		if err := rn.exec(&st, g.keys); err != nil {
@@ -442,6 +465,12 @@ func run(a *hlib.Args, e *hlib.Emitter) error {
 		return nil
 	}
 	r := hlib.NewRng(a.Seed, 15)
+	defer func() {
+		if shared != nil {
+			shared.finish()
+			shared = nil
+		}
+	}()
 	for n := 0; n < a.N; n++ {
 		c, err := genCase(a, n, r)
 		if err != nil {
